@@ -661,8 +661,8 @@ func run(c *mon.Ctx) {
 	c.Floor("capacity_exact_success", 1000)
 	// the setters edit the packet they are called on, whoever else is editing another packet at that moment
 	c.Floor("concurrent.calls", 20000)
-	c.Stream("concurrent-editors", c.N(3, 150), func(i int, r *gen.Rand) {
-		c.Concurrent("adaptation field setters on packets of their own", 8, 1500, r, func(q *gen.Rand) string {
+	c.Stream("concurrent-editors", c.N(8, 200), func(i int, r *gen.Rand) {
+		c.Concurrent("adaptation field setters on packets of their own", 8, 6000, r, func(q *gen.Rand) string {
 			L := 40 + q.Intn(140)
 			m := ref.GenTSPacket(q, 3, L)
 			p := packet.Packet(m.Bytes())
